@@ -87,6 +87,7 @@ func (x *Exec) loopContract(fn *ssa.Function, l *Loop) *LoopContract {
 // loopEnv: environment at a loop head: locals by name, `it` for range loops.
 func (x *Exec) loopEnv(st *State, fn *ssa.Function, l *Loop) *Env {
 	env := x.localEnv(st)
+	env.alias = x.Alias
 	fr := st.top()
 	if l.RangeIdx != nil {
 		if pv, ok := fr.Regs[l.RangeIdx]; ok {
